@@ -19,7 +19,7 @@ import numpy as np
 
 from simkit import ops
 from simkit.core import RunState, Sim, StopRun, enc, dec, small_values
-from simkit.world import World, SEAM, SimFault, SimBodyError, quiet
+from simkit.world import World, SEAM, SimFault, SimBodyError, SimExit, quiet
 
 MODE_OPS = [n for n in ops.ALL_OPS if n not in ("batch_norm",)]
 
@@ -95,7 +95,7 @@ class ModeSim(Sim):
             if r < 0.13:
                 return {"k": "exit"}
             if r < 0.13 + kn["p_raise"]:
-                return {"k": "raise"}
+                return {"k": "raise", "kind": rng.choice(["body", "body", "exit"])}
         r = rng.random()
         if r < kn["p_enter"] and d < 6:
             usable = sorted(st.ctxs)
@@ -121,7 +121,7 @@ class ModeSim(Sim):
                 nout = args.get("n", 1) if name == "unbind" else 1
                 ev = {"k": "op", "op": name, "in": ins, "args": args, "out": list(range(st.next_id, st.next_id + nout))}
                 if rng.random() < kn["p_fault"]:
-                    ev["fault"] = {"kind": rng.choice(["alloc", "interrupt"]), "at": rng.randint(1, 2)}
+                    ev["fault"] = {"kind": rng.choice(["alloc", "interrupt", "exit"]), "at": rng.randint(1, 2)}
                 return ev
         if r < 0.58:
             rg = [i for i in ids if st.T[i].requires_grad]
@@ -186,7 +186,7 @@ class ModeSim(Sim):
                 st.faults["F3.body_raise"] += 1
                 st.probes["body_raise"] += 1
                 st.sig.append("!")
-                e = SimBodyError("raised by user code inside a with body")
+                e = (SimBodyError if ev.get("kind", "body") == "body" else SimExit)("raised by user code inside a with body")
                 e._sim_escape = True
                 e._levels = 0
                 raise e
